@@ -13,8 +13,8 @@
 // limitations under the License.
 use std::path::PathBuf;
 
-use crate::ast::walk::Visitor;
-use crate::ast::Expression;
+use crate::ast::walk::{Visitor, Walker};
+use crate::ast::{Expression, FuncOpDef};
 
 pub struct Rewriter {
     base: PathBuf,
@@ -28,6 +28,25 @@ impl Rewriter {
 
 impl Visitor for Rewriter {
     fn visit_expression(&mut self, expr: &mut Expression) {
+        // The generic walker does not descend into these parts of an
+        // expression but imports and includes can appear in them too.
+        match expr {
+            Expression::FuncOp(FuncOpDef::Map(def)) | Expression::FuncOp(FuncOpDef::Filter(def)) => {
+                self.walk_expression(def.func.as_mut());
+            }
+            Expression::FuncOp(FuncOpDef::Reduce(def)) => {
+                self.walk_expression(def.func.as_mut());
+            }
+            Expression::Fail(def) => {
+                self.walk_expression(def.message.as_mut());
+            }
+            Expression::Module(def) => {
+                if let Some(out_expr) = def.out_expr.as_mut() {
+                    self.walk_expression(out_expr.as_mut());
+                }
+            }
+            _ => {}
+        }
         // Rewrite all paths except for stdlib paths to absolute.
         let main_separator = format!("{}", std::path::MAIN_SEPARATOR);
         if let Expression::Include(def) = expr {
